@@ -114,7 +114,11 @@ const (
 	cfgSpecials = "+&<>'\""
 )
 
-var cfgCurated = []string{"1.0.0+build", "feature/c++", "a&b<c>", "it's", `say "hi"`, "release-1.32", "R&D <dev>", "x y z",
+// text that looks escaped already: a value must come back verbatim, never "repaired"
+var cfgEntities = []string{"&amp;", "&lt;", "&gt;", "&#39;", "&#34;", "&quot;", "&amp;lt", "&amp;gt", "&amp;reg", "&amp;amp",
+	"&amp;not", "&copy", "&#x26;", "&amp;#43;", "%2B", "%26", "\\u0026", "\\n"}
+
+var cfgCurated = []string{"login&amp;registration", "2.0&amp;lt+rc1", "R&amp;D", "a&lt;b", "docs/q&amp;amp", "1.0.0+build", "feature/c++", "a&b<c>", "it's", `say "hi"`, "release-1.32", "R&D <dev>", "x y z",
 	"v2.0.0-rc.1+exp.sha.5114f85", "a  b", "true", "123", "1.5", "0x1F", "1e3", "2001-12-14", "no", ".inf", "null", "~", "NULL"}
 
 type cfgCase struct {
@@ -136,6 +140,8 @@ func safeString(r *rand.Rand) string {
 			b.WriteByte(cfgSpecials[r.Intn(len(cfgSpecials))])
 		case x == 3 && i < n-1:
 			b.WriteByte(' ')
+		case x == 4 && r.Intn(3) == 0:
+			b.WriteString(cfgEntities[r.Intn(len(cfgEntities))])
 		default:
 			b.WriteByte(cfgPlain[r.Intn(len(cfgPlain))])
 		}
